@@ -75,6 +75,12 @@ def stems : List String := [
   "8/8/8/8/8/2k5/2p5/2K5 w - - 0 1",
   "8/8/8/8/6Q1/8/k7/3K4 b - - 0 1",
   "8/8/6R1/8/8/2K5/8/r1k5 b - - 0 1",
+  -- exposed kings, queens and rooks on open lines: perpetual check neighbourhoods
+  "6k1/5p1p/8/8/8/8/r4r2/K3Q3 w - - 0 1",
+  "3r2k1/5ppp/8/8/8/8/5PPP/3Q2K1 w - - 0 1",
+  "6k1/8/8/8/8/8/1q6/K2R4 b - - 0 1",
+  "k7/8/8/8/8/5Q2/1r4PP/6K1 w - - 0 1",
+  "r5k1/5p2/6p1/8/8/8/Q4PPP/6K1 b - - 0 1",
   -- small endings
   "8/8/8/4k3/8/8/4P3/4K3 w - - 0 1",
   "8/8/8/8/8/4k3/4p3/4K3 b - - 0 1",
@@ -348,7 +354,10 @@ def quietMove (P : Spec.Position) (m : Spec.Move) : Bool :=
 def findCycle (P : Spec.Position) : G (Option (List Spec.Move)) := do
   let c1 := (Spec.legalMoves P).filter (quietMove P)
   if c1.isEmpty then return none
-  let m1 ← pick c1
+  -- prefer cycles that start with a check (perpetual-check shape): the repeated position is then
+  -- one in which the side to move is in check, i.e. a check-extended horizon node in the search
+  let checking := c1.filter fun m => let Q := Spec.apply P m; Spec.inCheck Q Q.side
+  let m1 ← if !checking.isEmpty && (← chance 2 3) then pick checking else pick c1
   let P1 := Spec.apply P m1
   let c2 := (Spec.legalMoves P1).filter (quietMove P1)
   if c2.isEmpty then return none
